@@ -252,6 +252,12 @@ def conforms(value, spec):
         return value is None or conforms(value, ty.t)
     if isinstance(ty, TEnum):
         return isinstance(value, enum.Enum)
+    from .types import TData, TObj
+
+    if isinstance(ty, TData) and ty.name == "slice":
+        return isinstance(value, slice)
+    if isinstance(ty, TObj) and ty.name in ("Term", "Factor", "Token", "SimpleFormula", "StructuredFormula", "ModelSpec", "ModelSpecs", "ScopedTerm", "ScopedFactor"):
+        return ty.name in [k.__name__ for k in type(value).__mro__]
     return True
 
 
